@@ -70,6 +70,23 @@ def rule_g1(ctx):
             len(a) == 3 and ((a[2] is not None and any(k in A.src(a[0]) for k in ('glob', 'listdir', 'iterdir', 'scandir'))
                               and ((a[1] in ('>', '!=') and A.int_value(a[2]) == 0) or (a[1] == '>=' and A.int_value(a[2]) == 1)))
                              or (a[1] == 'truthy' and 'any(' in A.src(a[0]))) for a in ats0)
+        # ... and it looks at EVERY entry of the directory: no filter on the listing (files only, a suffix, a pattern
+        # other than '*'); anything left in the directory would be deleted with it when clear=True
+        filt = None
+        te = flow.expand(test_expr(et), fn)
+        for x in ast.walk(te):
+            if isinstance(x, (ast.GeneratorExp, ast.ListComp, ast.SetComp)) and any(
+                    k in A.src(x.generators[0].iter) for k in ('glob', 'listdir', 'iterdir', 'scandir')):
+                g0 = x.generators[0]
+                plain = isinstance(g0.target, ast.Name) and (A.is_name(x.elt, g0.target.id) or isinstance(x.elt, ast.Constant)) and not g0.ifs
+                if not plain:
+                    filt = x
+            if isinstance(x, ast.Call) and isinstance(x.func, ast.Attribute) and x.func.attr in ('glob', 'rglob') and x.args \
+                    and isinstance(x.args[0], ast.Constant) and x.args[0].value not in ('*', '**/*'):
+                filt = x
+        rep.ob('G1', K.key(w, '__init__', 'emptiness-test-considers-every-entry'), filt is None, et.ast,
+               '' if filt is None else 'the non-emptiness test only counts some entries (`%s`): a directory holding anything '
+               'else is taken for empty, opened without reuse=True and removed with clear=True' % A.short(filt, 60))
         t_succ = [y for (y, k) in g.succ[et.id] if k == 'true']
         # from the true edge, the open is reachable only through the reuse test
         p = None
